@@ -191,3 +191,13 @@ func (t *VT) NBTxEchoNb(s *types.Sender, a string, b string) (string, error) { r
 
 // TxEchoB has the same shape as TxEcho (used to test that the function name is covered).
 func (t *VT) TxEchoB(s *types.Sender, a string, b string) (string, error) { return t.TxEcho(s, a, b) }
+
+// QueryCfgDump reports the configuration in force during this invocation (as applied by Configure).
+func (t *VT) QueryCfgDump() (string, error) {
+	cc, tc := t.ContractConfig(), t.TokenConfig()
+	return strings.Join([]string{
+		"sym=" + cc.GetSymbol(), "ski=" + cc.GetRobotSKI(), "admin=" + cc.GetAdmin().GetAddress(),
+		"issuer=" + tc.GetIssuer().GetAddress(), "fs=" + tc.GetFeeSetter().GetAddress(),
+		"dis=" + strings.Join(cc.GetOptions().GetDisabledFunctions(), ","),
+	}, " "), nil
+}
